@@ -172,19 +172,22 @@ def run(ctx):
     }
     f36_listed = any(f['id'] == 'F36' for f in ctx.known)
     for qname, (call, answer, who) in queries.items():
-        for outs in itertools.product(['ok', 'empty', 'raise'], repeat=2):
+        for outs in itertools.product(['ok', 'empty', 'raise', 'none'], repeat=2):
             for maxe in (1, 4):
                 for warm in (False, True):
+                    if 'none' in outs and warm:
+                        continue
                     srv = new_service(2)
                     srv.max_errors = maxe
                     for i in range(2):
+                        # ('none': a malformed answer - the provider's method returns nothing at all; as good as an empty answer)
                         script[i] = {'blockcount': ('ok', 800000),
-                                     qname: {'ok': ('ok', answer), 'empty': ('empty',), 'raise': ('raise',)}[outs[i]]}
+                                     qname: {'ok': ('ok', answer), 'empty': ('empty',), 'raise': ('raise',), 'none': ('ok', None)}[outs[i]]}
                         srv.providers['fake%d' % i]['priority'] = 50 - i
                     ctx.evals += 1; ctx.traces += 1
                     ctx.count('query:' + qname)
                     ctx.nontrivial.add(hash((qname, outs, maxe, warm)))
-                    model = run_driver(['svc_exec 1 %d %s' % (maxe, ','.join('ok%d' % i if o == 'ok' else o for i, o in enumerate(outs)))])[0].split(' | ')[0]
+                    model = run_driver(['svc_exec 1 %d %s' % (maxe, ','.join('ok%d' % i if o == 'ok' else ('empty' if o == 'none' else o) for i, o in enumerate(outs)))])[0].split(' | ')[0]
                     expected = model.split(' results')[0]
                     try:
                         if warm:
